@@ -621,14 +621,15 @@ Definition RInv (crash : bool) (h : hres) (s : rstate) : Prop :=
   | Some h' => h' = h /\ rs_done s = false /\ rs_panicked s = false /\ rs_val s = None
   | None => match h with
             | HReturn r c => rs_done s = true /\ rs_panicked s = false /\ rs_val s = Some (r, c)
-            | HPanics => rs_done s = false /\ rs_panicked s = true
+            | HPanics v => rs_done s = false /\ rs_panicked s = recover_sees v
             end
   end /\
   match rs_out s with
   | None => True
   | Some (ArmDone, res) => exists r c, h = HReturn r c /\ res = RResult r c
   | Some (ArmFired, res) => exists c, rs_fired s = Some c /\ res = RResult None (deadline_code c)
-  | Some (ArmPanic, res) => h = HPanics /\ res = (if crash then RResult None codeInternal else RPropagatedPanic)
+  | Some (ArmPanic, res) => (exists v, h = HPanics v /\ recover_sees v = true) /\
+                            res = (if crash then RResult None codeInternal else RPropagatedPanic)
   end.
 
 Lemma rinv_init crash h : RInv crash h (rinit h).
@@ -637,7 +638,7 @@ Proof. unfold RInv, rinit; simpl. auto. Qed.
 Lemma rstep_inv crash h l s s' : RInv crash h s -> rstep crash l s = Some s' -> RInv crash h s'.
 Proof.
   intros [I1 I2] H. destruct l as [|c|a]; simpl in H.
-  - unfold rh_step in H. destruct (rs_pending s) as [[r c|]|] eqn:E; [| |discriminate];
+  - unfold rh_step in H. destruct (rs_pending s) as [[r c|v]|] eqn:E; [| |discriminate];
       destruct I1 as (<- & D & P & V); inversion H; subst; unfold RInv; simpl; split; auto.
   - unfold rfire_step in H. destruct (rs_fired s) eqn:F; [discriminate|]. inversion H; subst; unfold RInv; simpl.
     split; [exact I1|]. destruct (rs_out s) as [[[| |] res]|]; auto. destruct I2 as (c' & Hc & _). discriminate.
@@ -645,7 +646,7 @@ Proof.
     + destruct (rs_panicked s) eqn:P; [|discriminate]. inversion H; subst; unfold RInv; simpl. split; [exact I1|].
       split; [|reflexivity]. destruct (rs_pending s) as [h'|].
       * destruct I1 as (_ & _ & P' & _). congruence.
-      * destruct h; [destruct I1 as (_ & P' & _); congruence|reflexivity].
+      * destruct h as [r c|v]; [destruct I1 as (_ & P' & _); congruence|]. destruct I1 as (_ & P'). exists v. split; congruence.
     + destruct (rs_done s) eqn:D; [|discriminate]. destruct (rs_val s) as [[r c]|] eqn:V; [|discriminate].
       inversion H; subst; unfold RInv; simpl. split; [exact I1|]. exists r, c. split; [|reflexivity].
       destruct (rs_pending s) as [h'|].
@@ -685,17 +686,25 @@ Proof.
   - rewrite D in H. discriminate.
 Qed.
 
-(* the interceptor always returns: while it has not, the handler step or some select arm is enabled *)
-Lemma rprogress crash h s : (exists ls, rrun crash ls (rinit h) = Some s) -> rs_out s = None ->
+(* the interceptor always returns (unless the handler panics with a value the recover test misses): while it
+   has not, the handler step or some select arm is enabled *)
+Lemma rprogress crash h s : (forall v, h = HPanics v -> recover_sees v = true) ->
+  (exists ls, rrun crash ls (rinit h) = Some s) -> rs_out s = None ->
   (exists s', rstep crash LH s = Some s') \/ (exists a s', rstep crash (LSel a) s = Some s').
 Proof.
-  intros [ls R] O. apply (rrun_inv crash h) in R; [|apply rinv_init]. destruct R as [I1 _]. simpl.
+  intros Hv [ls R] O. apply (rrun_inv crash h) in R; [|apply rinv_init]. destruct R as [I1 _]. simpl.
   destruct (rs_pending s) as [h'|] eqn:E.
   - left. unfold rh_step. rewrite E. destruct h'; eauto.
-  - right. destruct h as [r c|].
+  - right. destruct h as [r c|v].
     + destruct I1 as (D & P & V). exists ArmDone. unfold rsel_step. rewrite O, D, V. eauto.
-    + destruct I1 as (D & P). exists ArmPanic. unfold rsel_step. rewrite O, P. eauto.
+    + destruct I1 as (D & P). rewrite (Hv v eq_refl) in P. exists ArmPanic. unfold rsel_step. rewrite O, P. eauto.
 Qed.
+
+(* an unseen panic leaves the unary timeout interceptor in its select until the deadline -- computed witness *)
+Lemma rpc_nil_panic_stuck crash :
+  exists s, rrun crash [LH] (rinit (HPanics PVNil)) = Some s /\ rs_out s = None /\
+            rstep crash LH s = None /\ (forall a, rstep crash (LSel a) s = None).
+Proof. eexists. split; [reflexivity|]. split; [reflexivity|]. split; [reflexivity|]. intros [| |]; reflexivity. Qed.
 
 (* ================================================================== the statements of Props.v *)
 Lemma t_exactly_one_response : forall recover rh0 acts ls s,
